@@ -12,6 +12,16 @@ def plans(tier):
          "liveness": False},
         {"name": "2m-queued-before-add", "msgs": [[2, 1], [1]], "prog": [S, A(2), A(1)][1:], "simulate": 30},
     ]
+    base += [
+        # a burst already queued when the set first looks at the member (more than any plausible per-event budget)
+        {"name": "bulk-queued-first", "msgs": [[1] * 48, [1, 1]], "prog": [A(1), A(2)], "simulate": 2, "caps": (2,),
+         "senders_first": True, "liveness": False},
+        # the sender of a fragmented message is killed mid-message; observed through the set
+        {"name": "kill-mid-message", "msgs": [[1, 2], [2, 1]], "prog": [A(1), A(2)], "simulate": 30, "caps": (2,),
+         "crashers": [2], "liveness": False},
+        {"name": "kill-then-look", "msgs": [[2], [1]], "prog": [A(1), A(2)], "simulate": 6, "caps": (2,),
+         "crashers": [1], "senders_first": True, "liveness": False},
+    ]
     if tier == "quick":
         return base
     for p in base:
